@@ -141,7 +141,7 @@ def main():
                                          "lim": [quantise(v, 1e-4) for v in lim]})
                         ev.append({"e": "CondQ", "rows": rows, "one": quantise(1.0, QU)})
                     # the stated mixed derivative next to central mixed differences of the copula itself, in every orthant:
-                    # row = [stated, sgn(prod u) * difference quotient, difference quotient * prod u] on the row's own scale
+                    # row = [stated, difference quotient, difference quotient * prod u] on the row's own scale
                     # (moderate theta and magnitudes: for a stiff copula the difference quotient loses its digits to cancellation)
                     rows = []
                     for signs in (itertools.product((1.0, -1.0), repeat=d) if theta <= 2.0 else ()):
@@ -154,7 +154,7 @@ def main():
                             fdq /= float(np.prod(2 * hs))
                             v = float(cop.x_first_derivative(u))
                             unit = 1e-6 * max(abs(fdq), abs(v), 1e-12)
-                            rows.append([quantise(v, unit), quantise(float(np.sign(np.prod(u))) * fdq, unit),
+                            rows.append([quantise(v, unit), quantise(fdq, unit),
                                          quantise(fdq * float(np.prod(u)), unit)])
                     if rows:
                         ev.append({"e": "Deriv", "rows": rows})
